@@ -10,6 +10,7 @@
   found by this check) do depend on the order.
 -/
 import Gotree.Lemmas.C18
+import Gotree.Lemmas.C18Read
 import Gotree.Spec.C18
 
 namespace Gotree.C18
@@ -255,6 +256,101 @@ theorem site_drawFonts_perm_invariant (l l' : List (String × String)) (h : l.Pe
 theorem ncbiMapLines_order_matters :
     ncbiMapLines [("1", "a"), ("2", "b")] ≠ ncbiMapLines [("2", "b"), ("1", "a")] := by decide
 
+/-! ### the readers that build the maps: cmd/root.go `readMapFile`, cmd/acr.go `parseTipStates` (round 7) -/
+
+/-- the map `readMapFile` returns has pairwise distinct keys: the hypothesis `nodupKeys` of the site theorems
+    is a theorem about the reader's model, not an assumption, for the map of `gotree rename -m` -/
+theorem readMapFile_nodupKeys (revert : Bool) (lines : List String) (m : List (String × String))
+    (h : readMapFile revert lines = .ok m) : nodupKeys m = true :=
+  readLoop_nodupKeys _ lines 1 [] m rfl h
+
+/-- …and for the tip → state table of `gotree acr --states` -/
+theorem parseTipStates_nodupKeys (lines : List String) (m : List (String × String))
+    (h : parseTipStates lines = .ok m) : nodupKeys m = true :=
+  readLoop_nodupKeys _ lines 1 [] m rfl h
+
+/-- what the map answers for a key is the value of the LAST line of the file whose key column is that key
+    (second column with `--revert`): stated on the list of lines, no map involved -/
+theorem readMapFile_last_line_wins (revert : Bool) (lines : List String) (m : List (String × String))
+    (h : readMapFile revert lines = .ok m) (k : String) :
+    get m k = lastBinding (mapFileEntry revert) lines none k := by
+  have := readLoop_get _ lines 1 [] m h k
+  simpa [get] using this
+
+theorem parseTipStates_last_line_wins (lines : List String) (m : List (String × String))
+    (h : parseTipStates lines = .ok m) (k : String) :
+    get m k = lastBinding (twoCols isTabOrComma) lines none k := by
+  have := readLoop_get _ lines 1 [] m h k
+  simpa [get] using this
+
+/-- the error of `readMapFile` names the first line (1-based) that has not exactly two columns -/
+theorem readMapFile_error_is_first_bad_line (revert : Bool) (lines : List String) (n : Nat)
+    (h : readMapFile revert lines = .error n) :
+    1 ≤ n ∧ ((lines.drop (n - 1)).head?.bind (mapFileEntry revert) = none ∧ (lines.drop (n - 1)).head?.isSome) ∧
+      ∀ i, i < n - 1 → ((lines.drop i).head?.bind (mapFileEntry revert)).isSome :=
+  readLoop_error _ lines 1 [] n h
+
+/-- `gotree rename -m file [-r]`, reader and `Tree.Rename` together: whatever listing `l'` Go gives of the map
+    the reader built, the renamed names (or the failure) are those of the model run on the file — no
+    hypothesis is left -/
+theorem renameFromFile_listing_irrelevant (revert : Bool) (lines names : List String) (isTip : List Bool)
+    (m l' : List (String × String)) (h : readMapFile revert lines = .ok m) (hp : m.Perm l') :
+    renameFull names isTip l' = renameFromFile revert lines names isTip := by
+  unfold renameFromFile
+  rw [h]
+  exact (Rename_whole_perm_invariant names isTip m l' hp (readMapFile_nodupKeys revert lines m h)).symm
+
+/-- `gotree acr --states file`: the alphabet and the state of every tip are those of the file, whatever the
+    listing of the table -/
+theorem acrFromFile_listing_irrelevant (lines tips : List String) (m l' : List (String × String))
+    (h : parseTipStates lines = .ok m) (hp : m.Perm l') :
+    acrAlphabet l' = acrAlphabet m ∧ tipStateLines l' tips = tipStateLines m tips := by
+  refine ⟨(site_ParsimonyAcr_alphabet_perm_invariant m l' hp).symm, ?_⟩
+  unfold tipStateLines
+  apply List.map_congr_left
+  intro t _
+  rw [get_perm hp (parseTipStates_nodupKeys lines m h) t]
+
+/-- seeded change C18-4 (read the file forward, then invert the map by ranging over it when `--revert` is
+    given): with a map file that is not injective the inverted map depends on the order… -/
+theorem readMap_invert_after_order_matters :
+    get (invertLoop [("a", "x"), ("b", "x")]) "x" ≠ get (invertLoop [("b", "x"), ("a", "x")]) "x" := by decide
+
+/-- …whereas the reader as it is fills the reverted map line by line: the last line wins (instance of
+    readMapFile_last_line_wins on the same file) -/
+theorem readMapFile_revert_example :
+    (readMapFile true ["a\tx", "b\tx"]).toOption.map (fun m => get m "x") = some (some "b") := by decide
+
+/-! ### `gotree rename --auto -m out`: tree.RenameAuto over the trees of the file, then writeNameMap (round 7) -/
+
+/-- the name map `RenameAuto` fills (looked up and extended, never ranged over) has distinct keys… -/
+theorem renameAutoMap_keys_distinct (internals tips : Bool) (length : Nat) (trees : List (List (String × Bool)))
+    (m : List (String × String)) (h : renameAutoMap internals tips length trees 1 [] = some m) :
+    nodupKeys m = true :=
+  renameAutoMap_nodupKeys internals tips length trees 1 [] m rfl h
+
+/-- …so the map file the command writes is the same for every listing `l'` Go gives of that map to
+    `writeNameMap`: the hypothesis of site_writeNameMap_perm_invariant is discharged for the whole `--auto` path -/
+theorem renameAutoCmd_mapfile_listing_irrelevant (internals tips : Bool) (length : Nat)
+    (trees : List (List (String × Bool))) (m l' : List (String × String))
+    (h : renameAutoMap internals tips (if length < 5 then 5 else length) trees 1 [] = some m) (hp : m.Perm l') :
+    (renameAutoCmd internals tips length trees).2 = some (nameMapLines l') := by
+  unfold renameAutoCmd
+  rw [renameAutoTrees_snd, h]
+  simp only [Option.map_some]
+  rw [site_writeNameMap_perm_invariant m l' hp (renameAutoMap_keys_distinct _ _ _ _ m h)]
+
+/-- the generated identifiers: zero-padded to the requested length, and the failure when the counter needs
+    more digits than the length leaves ("Id length 5 does not allow to generate as much ids") -/
+theorem autoName_examples :
+    autoName 'T' 6 12 = "T00012" ∧ autoName 'N' 10 7 = "N000000007" ∧ (autoName 'T' 5 10000).length ≠ 5 := by decide
+
+/-- a name met again (same tip in the next tree, or two inner nodes without a name at the same position) reuses
+    its identifier; the counter only advances on new names -/
+theorem renameAuto_reuses_names :
+    renameAutoLoop true true 5 0 [("", false), ("b", true), ("c", true)] [] 4 [("0", "N0001"), ("a", "T0002"), ("b", "T0003")] =
+      .ok ["N0001", "T0003", "T0004"] 5 [("0", "N0001"), ("a", "T0002"), ("b", "T0003"), ("c", "T0004")] := by decide
+
 /-! ### the table -/
 
 /-- a proved site: its key in table (c) and the theorem -/
@@ -383,6 +479,52 @@ theorem compareTips_runs_one_output (refTips : List String) (l : List (String ×
     intro o h
     rw [hall o (List.mem_cons_of_mem _ h), hall a (List.mem_cons_self ..)]
 
+/-- instance without any hypothesis on the map: `gotree rename -i tree -m file [-r]` in any number of runs — the
+    map is the one the reader's model builds from the file, `orders` are the listings Go gives of it to
+    `Tree.Rename` in the successive runs; the printed names (or the failure) satisfy the oracle predicate -/
+theorem renameFromFile_runs_one_output (revert : Bool) (lines names : List String) (isTip : List Bool)
+    (m : List (String × String)) (h : readMapFile revert lines = .ok m)
+    (orders : List (List (String × String))) (ho : ∀ o ∈ orders, m.Perm o) :
+    oneOutput (orders.map (fun o => match renameFull names isTip o with
+      | none => "error" | some after => "\n".intercalate after)) = true := by
+  have hall : ∀ o ∈ orders, renameFull names isTip o = renameFromFile revert lines names isTip :=
+    fun o ho' => renameFromFile_listing_irrelevant revert lines names isTip m o h (ho o ho')
+  cases orders with
+  | nil => rfl
+  | cons a t =>
+    simp only [List.map_cons, oneOutput, List.all_map, List.all_eq_true, Function.comp, beq_iff_eq]
+    intro o ho'
+    rw [hall o (List.mem_cons_of_mem _ ho'), hall a (List.mem_cons_self ..)]
+
+/-- the boundary seeds are seeds: 0, a negative value other than -1 and the largest int64 are handed to
+    `rand.Seed` unchanged whatever the clock says… -/
+theorem boundary_seeds_ignore_clock (c : Int) :
+    effectiveSeed 0 c = 0 ∧ effectiveSeed (-2) c = -2 ∧ effectiveSeed 9223372036854775807 c = 9223372036854775807 := by
+  refine ⟨?_, ?_, ?_⟩ <;> simp [effectiveSeed]
+
+/-- …whereas a test `seed <= 0` for "no seed given" would read the clock for two of them -/
+theorem seed_nonpositive_variant_reads_clock :
+    effectiveSeedNonPositive 0 1 ≠ effectiveSeedNonPositive 0 2 ∧
+    effectiveSeedNonPositive (-2) 1 ≠ effectiveSeedNonPositive (-2) 2 := by decide
+
+/-! ### the number of threads is a configuration: support/tbe.go hands every reference branch to exactly one worker -/
+
+/-- whatever the number of workers and whichever worker receives which branch, the branches visited for one
+    bootstrap tree are all the reference branches, each once, in `Edges()` order: the supports cannot depend on -t -/
+theorem tbe_feeder_visits_every_branch_once {α} (cpu : Nat) (sched : Nat → Nat) (edges : List α) :
+    feederVisited cpu sched edges = edges := by
+  unfold feederVisited feederHandled
+  rw [List.map_map]
+  have : ((fun (x : Nat × α) => x.2) ∘ fun (e : α × Nat) => (sched e.2 % cpu, e.1)) = fun (e : α × Nat) => e.1 := rfl
+  rw [this]
+  exact List.zipIdx_map_fst 0 edges
+
+/-- seeded change C18-7 (static blocks of `len(edges)/cpu` branches): with 13 branches, 5 workers leave the last
+    three branches unvisited, 64 workers leave all of them, while 1 worker visits all — the result depends on -t -/
+theorem tbe_static_blocks_depend_on_threads :
+    staticVisited 1 (List.range 13) = List.range 13 ∧ staticVisited 5 (List.range 13) = List.range 10 ∧
+    staticVisited 64 (List.range 13) = [] := by decide
+
 /-- the sites of the excluded packages are exactly the reviewed ones -/
 theorem excluded_sites_reviewed : excludedSites.map (·.key) = reviewedExcludedSites.map (·.1) := by decide
 
@@ -472,5 +614,14 @@ example : nameMapLines [("b", "T2"), ("a", "T1"), ("c", "T3")] = nameMapLines [(
 example : renameLoop [("a", 0), ("b", 1)] (fun _ => "") [("b", "y"), ("a", "x")] = renameLoop [("a", 0), ("b", 1)] (fun _ => "") [("a", "x"), ("b", "y")] :=
   site_Rename_perm_invariant _ _ _ _ (List.Perm.swap ..) (by decide) (by decide)
 example : ([("0-1-A-C", (⟨0, 1, "t1", 'A', 'C', 0, 0, 1⟩ : Mut)), ("0-2-A-C", ⟨0, 2, "t2", 'A', 'C', 0, 0, 1⟩)].all (fun e => e.2.numEEM == 1)) = true := by decide
+
+example : (readMapFile true ["n0\tt1", "n1\tt2", "n2\tt1", "n3\tt3"]).toOption.map (fun m => (get m "t1", get m "t2", m.length)) =
+    some (some "n2", some "n1", 3) := by decide
+example : ([["a\tb", "no tab here", "c\td"], ["a\tb", "c\td\te"], ["a\tb", ""], ["a\tb"]].map (fun f =>
+    match readMapFile false f with | .error n => some n | .ok _ => none)) = [some 2, some 2, some 2, none] := by decide
+example : (parseTipStates ["t1\tA", "t2,B", "t1,C"]).toOption.map (fun m => (get m "t1", get m "t2")) = some (some "C", some "B") ∧
+    (parseTipStates ["t1\tA,B"]).toOption.isNone = true := by decide
+example : renameAutoLoop false true 5 0 [("a", true), ("", false), ("b", true)] [] 1 [] =
+    .ok ["T0001", "", "T0002"] 3 [("a", "T0001"), ("b", "T0002")] := by decide
 
 end Gotree.C18
